@@ -612,6 +612,79 @@ fn apply_byte_fault(rng: &mut Rng, kind: &str, files: &mut [(String, Vec<u8>)]) 
     true
 }
 
+fn inheritance_lattice(rng: &mut Rng, ptr: usize, tier: Tier) -> Project {
+    use crate::project::{Flags, Item, Module};
+    let depth = match tier {
+        Tier::Quick => rng.range(6, 11),
+        Tier::Thorough => rng.range(8, 12),
+    };
+    let mut p = Project {
+        ptr,
+        modules: vec![Module {
+            path: vec!["lattice".into()],
+            ..Default::default()
+        }],
+        items: vec![],
+        style: rng.next_u64(),
+    };
+    let with_function = rng.chance(1, 2);
+    for i in 0..=depth {
+        let fields = if i == 0 {
+            vec![]
+        } else {
+            (0..2)
+                .map(|b| Field {
+                    vis: true,
+                    name: format!("b{b}"),
+                    ty: Ty::Item(i - 1),
+                    address: None,
+                    base: true,
+                    doc: None,
+                })
+                .collect()
+        };
+        p.items.push(Item {
+            module: 0,
+            name: format!("L{i}"),
+            vis: true,
+            doc: None,
+            kind: ItemKind::Type {
+                fields,
+                vftable: None,
+                size: None,
+                align: Some(1),
+                packed: false,
+                flags: Flags::default(),
+                singleton: None,
+                impl_funcs: if i == 0 && with_function {
+                    vec![Func {
+                        vis: true,
+                        name: "root_fn".into(),
+                        recv: Some(false),
+                        args: vec![],
+                        ret: None,
+                        address: Some(0x100),
+                        index: None,
+                        cc: None,
+                        doc: None,
+                    }]
+                } else {
+                    vec![]
+                },
+                semicolon_form: false,
+            },
+            csize: 0,
+            calign: 1,
+            vslots: None,
+        });
+        p.modules[0].order.push(Decl::Item(i));
+        if i == 0 && with_function {
+            p.modules[0].order.push(Decl::Impl(0));
+        }
+    }
+    p
+}
+
 /// 150-300 tiny types, partly a long by-value chain declared in the worst order, partly
 /// pointing at each other, in one or two modules.
 fn many_small_items(rng: &mut Rng, ptr: usize) -> Project {
@@ -971,7 +1044,12 @@ pub fn generate(seed: u64, tier: Tier) -> Case {
         Tier::Thorough => (24, 6),
     };
     let ptr = if rng.chance(1, 2) { 4 } else { 8 };
-    let project = if rng.chance(1, 40) {
+    let project = if rng.chance(1, 200) {
+        // A lattice of double inheritance: d levels, two bases of the previous level each. The
+        // hierarchy it describes has 2^d base sub-objects; whatever is done with them must stay
+        // proportional to that number.
+        inheritance_lattice(&mut rng, ptr, tier)
+    } else if rng.chance(1, 40) {
         // Many small items in a few kilobytes: whatever the build does per item, per field or
         // per pass must stay proportional.
         many_small_items(&mut rng, ptr)
@@ -1178,6 +1256,62 @@ pub fn generate(seed: u64, tier: Tier) -> Case {
     }
 }
 
+/// Total number of (transitive) base sub-objects over all types of the world, by short name
+/// (saturating; cyclic or undefined bases count as nothing).
+fn hierarchy_size(files: &[(String, Result<grammar::Module, String>)]) -> usize {
+    use std::collections::BTreeMap;
+    let mut bases: BTreeMap<String, Vec<String>> = BTreeMap::new();
+    for (_, m) in files {
+        let Ok(m) = m else { continue };
+        for d in &m.definitions {
+            let grammar::ItemDefinitionInner::Type(t) = &d.inner else {
+                continue;
+            };
+            let mut b = vec![];
+            for s in &t.statements {
+                let is_base = s.attributes.0.iter().any(
+                    |a| matches!(a, grammar::Attribute::Ident(i) if i.as_str() == "base"),
+                );
+                if let (true, grammar::TypeField::Field(_, _, grammar::Type::Ident(n))) =
+                    (is_base, &s.field)
+                {
+                    b.push(n.as_str().to_string());
+                }
+            }
+            bases.insert(d.name.as_str().to_string(), b);
+        }
+    }
+    fn paths(
+        name: &str,
+        bases: &BTreeMap<String, Vec<String>>,
+        memo: &mut BTreeMap<String, usize>,
+        depth: usize,
+    ) -> usize {
+        if depth > 64 {
+            return 0;
+        }
+        if let Some(v) = memo.get(name) {
+            return *v;
+        }
+        let mut total = 0usize;
+        if let Some(bs) = bases.get(name) {
+            for b in bs {
+                total = total
+                    .saturating_add(1)
+                    .saturating_add(paths(b, bases, memo, depth + 1));
+            }
+        }
+        memo.insert(name.to_string(), total);
+        total
+    }
+    let mut memo = BTreeMap::new();
+    bases
+        .keys()
+        .map(|n| paths(n, &bases, &mut memo, 0))
+        .fold(0usize, |a, b| a.saturating_add(b))
+        .min(1 << 24)
+}
+
 fn parse_all(world: &World) -> Vec<(String, Result<grammar::Module, String>)> {
     world
         .module_files()
@@ -1231,6 +1365,7 @@ pub fn evaluate(case: &Case, results: &[Vec<RunResult>], report: &mut CaseReport
         .collect();
 
     let input_bytes = world.input_bytes();
+    let hierarchy_entries = hierarchy_size(&faulted);
     for (bi, reps) in results.iter().enumerate() {
         for r in reps {
             match &r.outcome {
@@ -1249,7 +1384,11 @@ pub fn evaluate(case: &Case, results: &[Vec<RunResult>], report: &mut CaseReport
                 Outcome::Ok | Outcome::Err(_) => {}
             }
             // Allocation: generous by design, it exists to catch blow-ups.
-            let bound = (64usize << 20) + 4096 * (input_bytes + LARGE_TABLE as usize);
+            // What the input asks for also includes the base sub-objects of its inheritance
+            // hierarchies (a lattice of d levels has 2^d of them, each re-exposed).
+            let bound = (64usize << 20)
+                + 4096 * (input_bytes + LARGE_TABLE as usize)
+                + (64 << 10) * hierarchy_entries;
             report.count("alloc:runs_measured", 1);
             if r.peak_alloc > (16 << 20) {
                 report.count("alloc:runs_above_16MiB", 1);
